@@ -13,7 +13,18 @@ from ..lib import F, Q, S, SF, to_float
 U_ = ref.U
 
 
+def _coo_dup(P):
+    """COO matrix equal to P whose triplets repeat every position (a stored as a/2 + a/2: exact)."""
+    r, c = np.nonzero(P)
+    v = P[r, c] / 2.0
+    return sp.coo_matrix((np.concatenate([v, v]), (np.concatenate([r, r]), np.concatenate([c, c]))), shape=P.shape)
+
+
 def planes(A, sparse=False):
+    if sparse == "coo_dup":
+        return tuple(_coo_dup(np.ascontiguousarray(A[..., c])) for c in range(4))
+    if sparse == "csc":
+        return tuple(sp.csc_matrix(A[..., c]) for c in range(4))
     if sparse:
         return tuple(sp.csr_matrix(A[..., c]) for c in range(4))
     return tuple(np.ascontiguousarray(A[..., c]) for c in range(4))
@@ -35,6 +46,10 @@ def all_paths(A, B, out, site_prefix=""):
         "left_multiply": lambda: Bs.left_multiply(Aq),
         "timesQsparse(dense planes)": lambda: np.stack(u.timesQsparse(*planes(A), *planes(B)), axis=-1),
         "timesQsparse(sparse planes)": lambda: np.stack(u.timesQsparse(*planes(A, True), *planes(B, True)), axis=-1),
+        "timesQsparse(COO planes with repeated triplets, CSC planes)":
+            lambda: np.stack(u.timesQsparse(*planes(A, "coo_dup"), *planes(B, "csc")), axis=-1),
+        "SparseQuaternionMatrix(from COO with repeated triplets)@sparse(from CSC)":
+            lambda: u.SparseQuaternionMatrix(*planes(A, "coo_dup"), A.shape[:2]) @ u.SparseQuaternionMatrix(*planes(B, "csc"), B.shape[:2]),
     }
     for name, fn in calls.items():
         ok, r = out.call(site_prefix + name, fn)
